@@ -160,6 +160,19 @@ Definition urlparse_m (v6 : list (text * bool)) (u : text) : parsed :=
   | _ => PUrl scheme []
   end.
 
+(* named pieces of [urlparse_m], used to characterise it (Proofs/C12_url.v) *)
+Definition url_prepare (u : text) : text :=
+  filter (fun c => negb (memN c url_unsafe)) (drop_while (fun c => memN c url_c0) u).
+(* the authority urlsplit cuts; None when the text after the scheme does not start with '//' *)
+Definition url_netloc (u : text) : option text :=
+  match snd (split_scheme (url_prepare u)) with
+  | 47 :: 47 :: rest => Some (take_while (fun c => negb (memN c netloc_delims)) rest)
+  | _ => None
+  end.
+Definition url_scheme (u : text) : text := fst (split_scheme (url_prepare u)).
+Definition bracket_content (netloc : text) : text :=
+  take_while (fun c => negb (c =? 93)) (match cut_at 91 netloc with Some (_, a) => a | None => [] end).
+
 (* ------------------------------------------------------------------ util.is_same_domain *)
 Definition is_same_domain (host pattern : text) : bool :=
   match pattern with
@@ -221,6 +234,16 @@ Definition expected_token (s : storage) (r : request) : text :=
   | Legacy => match r_stored r with Some t => t | None => r_fresh r end            (* session: `is None` *)
   | _ => match r_stored r with Some t => if is_empty t then r_fresh r else t | None => r_fresh r end  (* `not token` *)
   end.
+
+(* token lifecycle: get_csrf_token mints (new_csrf_token) exactly when the storage holds none *)
+Definition token_absent (s : storage) (stored : option text) : bool :=
+  match stored with
+  | None => true
+  | Some t => match s with Legacy => false | _ => is_empty t end
+  end.
+(* what the storage holds after get_csrf_token / check_csrf_token *)
+Definition store_after_get (s : storage) (stored : option text) (fresh : text) : option text :=
+  if token_absent s stored then Some fresh else stored.
 
 (* the token read by check_csrf_token *)
 Definition supplied_token (token header : option text) (r : request) : text :=
@@ -381,6 +404,74 @@ Definition view_outcome_p (pr : params) (c : config) (r : request) : outcome :=
   else Ran.
 
 Definition view_outcome (c : config) (r : request) : outcome := view_outcome_p (the_params (c_storage c)) c r.
+
+(* ------------------------------------------------------------------ sequences of requests by several clients *)
+(* Per-client state = the token its session / csrf cookie holds.  A request may carry the
+   placeholder U+10FFFE as a header or form value, meaning "the token this client holds now"
+   (the legitimate page echoing its token); [with_client_state] resolves it and installs the state. *)
+Definition placeholder : text := [1114110].
+Definition resolve_val (st : option text) (v : text) : text :=
+  if text_eqb v placeholder then or_empty st else v.
+Definition with_client_state (st : option text) (r : request) : request :=
+  mkReq (map (fun kv => (fst kv, resolve_val st (snd kv))) (r_env r))
+        (map (fun kv => (fst kv, resolve_val st (snd kv))) (r_post r))
+        (r_query r) st (r_fresh r) (r_cb r) (r_v6 r).
+
+(* policy.check_csrf_token (hence get_csrf_token) is reached *)
+Definition token_stage_reached (pr : params) (c : config) (r : request) : bool :=
+  let o := effective c in
+  checks_apply c r &&
+  (if o_check_origin o
+   then match fst (check_csrf_origin_p pr (c_settings c) None (o_allow_no_origin o) r) with OPass => true | _ => false end
+   else true).
+
+(* session / cookie changes reach the client only with a response: a BadCSRF* raised inside an
+   exception view, and any other exception, leave the router as an exception *)
+Definition response_produced (c : config) (out : outcome) : bool :=
+  match out with
+  | Ran => true
+  | BadOrigin _ | BadToken => negb (c_exception_only c)
+  | Raised _ => false
+  end.
+
+Definition client_step (pr : params) (c : config) (st : option text) (r : request) : outcome * option text :=
+  let r' := with_client_state st r in
+  let out := view_outcome_p pr c r' in
+  (out, if token_stage_reached pr c r' && response_produced c out
+        then store_after_get (c_storage c) st (r_fresh r') else st).
+
+Fixpoint run_client (pr : params) (c : config) (st : option text) (rs : list request) : list outcome * option text :=
+  match rs with
+  | [] => ([], st)
+  | r :: rest =>
+      let '(out, st') := client_step pr c st r in
+      let '(outs, st'') := run_client pr c st' rest in
+      (out :: outs, st'')
+  end.
+
+Definition stores := list (N * option text).
+Fixpoint st_get (k : N) (s : stores) : option text :=
+  match s with [] => None | (k', v) :: r => if k =? k' then v else st_get k r end.
+Definition st_set (k : N) (v : option text) (s : stores) : stores := (k, v) :: s.
+
+(* the interleaved run: each step names its client *)
+Fixpoint run_clients (pr : params) (c : config) (s : stores) (steps : list (N * request)) : list outcome * stores :=
+  match steps with
+  | [] => ([], s)
+  | (k, r) :: rest =>
+      let '(out, v) := client_step pr c (st_get k s) r in
+      let '(outs, s') := run_clients pr c (st_set k v s) rest in
+      (out :: outs, s')
+  end.
+
+(* the stores seen by each step (before it), for reporting *)
+Fixpoint stores_trace (pr : params) (c : config) (s : stores) (steps : list (N * request)) : list (option text) :=
+  match steps with
+  | [] => []
+  | (k, r) :: rest =>
+      let v := snd (client_step pr c (st_get k s) r) in
+      v :: stores_trace pr c (st_set k v s) rest
+  end.
 
 (* ================================================================== declarative specification *)
 (* The property's wording, phrased without the code's control flow and with ITS OWN literals
@@ -559,9 +650,43 @@ Definition put_overdict (o : overdict) : val :=
    answer = [ per request [view outcome; callback called; token verdict; origin verdict (history)];
               caller list afterwards;
               per request [spec runs; spec token ok; spec origin ok (initial list); wf_tokens; parse_defined] ] *)
+Definition put_parsed (p : parsed) : val :=
+  match p with
+  | PUrl sc nl => VL [VI 0; VT sc; VT nl]
+  | PValueError => VL [VI 1]
+  | PUnmodelled => VL [VI 2]
+  end.
+
+Definition get_step (v : val) : option (N * request) :=
+  match v with VL [VI k; r] => olet r := get_request r in Some (Z.to_N k, r) | _ => None end.
+Definition get_store (v : val) : option (N * option text) :=
+  match v with VL [VI k; t] => olet t := get_opt get_text t in Some (Z.to_N k, t) | _ => None end.
+
+(* case = [config; caller list (option); requests]
+   answer = [ per request [view outcome; callback called; token verdict; origin verdict (history)];
+              caller list afterwards;
+              per request [spec runs; spec token ok; spec origin ok (initial list); wf_tokens; parse_defined] ]
+   case = [1; url; oracle]            answer = urlparse_m
+   case = [2; config; stores; steps]  answer = [ per step [outcome; client's store afterwards];
+                                                 per step [spec runs; wf_tokens; parse_defined] (on the resolved request) ] *)
 Definition run_C12 (v : val) : val :=
   ret_or_bad (
     match v with
+    | VL [VI 1%Z; VT u; v6] =>
+        olet v6 := get_list_of get_tb v6 in Some (put_parsed (urlparse_m v6 u))
+    | VL [VI 2%Z; cfg; st; steps] =>
+        olet c := get_config cfg in olet st := get_list_of get_store st in
+        olet steps := get_list_of get_step steps in
+        let pr := the_params (c_storage c) in
+        let outs := fst (run_clients pr c st steps) in
+        let trace := stores_trace pr c st steps in
+        let before := (fix go (s : stores) (l : list (N * request)) (t : list (option text)) : list request :=
+                         match l, t with
+                         | (k, r) :: l', v :: t' => with_client_state (st_get k s) r :: go (st_set k v s) l' t'
+                         | _, _ => []
+                         end) st steps trace in
+        Some (VL [VL (map (fun ov => VL [put_outcome (fst ov); vopt VT (snd ov)]) (combine outs trace));
+                  VL (map (fun r => VL [vbool (spec_runs c r); vbool (wf_tokens c r); vbool (parse_defined r)]) before)])
     | VL [cfg; caller; reqs] =>
         olet c := get_config cfg in olet caller := get_opt get_texts caller in
         olet rs := get_list_of get_request reqs in
